@@ -259,6 +259,7 @@ pub fn restore_file(path: &Path) -> Result<Restored, String> {
                     max_fails: job.job_desc.max_fails,
                     tasks,
                     completed: job.completion_date.is_some(),
+                    status: String::new(),
                 }
             })
             .collect();
